@@ -18,7 +18,7 @@ const maxInlineDepth = 10
 
 func isSpecHelper(f *types.Func) bool {
 	switch f.Name() {
-	case "old", "forallInt", "existsInt", "forallReal", "existsReal", "implies", "assert", "assume", "iff", "fresh", "memEq", "lemmaUse", "wfd", "bnd", "sameSlice", "sameSlice16", "iterStart", "allocd", "ghostRank", "rangeIndex", "inPlace", "same", "sharesMem", "wroteSeq", "wroteLast", "callCount", "callArgF", "callArgI", "callArgB", "callResF", "callResI", "callResB", "callSeen", "rangeSlice":
+	case "old", "forallInt", "existsInt", "forallReal", "existsReal", "implies", "assert", "assume", "iff", "fresh", "memEq", "lemmaUse", "wfd", "bnd", "sameSlice", "sameSlice16", "iterStart", "allocd", "ghostRank", "rangeIndex", "inPlace", "same", "sharesMem", "wroteSeq", "wroteLast", "callCount", "callArgF", "callArgI", "callArgB", "callResF", "callResI", "callResB", "callSeen", "rangeSlice", "callArgIs":
 		return f.Pkg() != nil && strings.Contains(f.Pkg().Path(), "tdewolff/canvas")
 	}
 	return false
@@ -1168,7 +1168,36 @@ func (x *Exec) callModular(s *State, fi *FuncInfo, ct *Contract, recv *Term, arg
 		}
 	}
 	for _, en := range ct.Ensures {
-		s.assume(x.evalClauseIn(s, env, fi, en, vals, pre))
+		t := x.evalClauseIn(s, env, fi, en, vals, pre)
+		s.assume(t)
+		// forall-introduction over ghost variables (directive `generalize`): the clause was proved with the ghost
+		// variable an arbitrary constant that the callee cannot assign and no precondition mentions, so it holds
+		// for every value
+		for _, gv := range ct.Generalize {
+			if !strings.Contains(en.Text, gv) {
+				continue
+			}
+			name := "G_" + fi.Pkg.Types.Name() + "_" + gv
+			g, ok := s.heap[name]
+			if !ok {
+				g = x.heapInit(name, nil)
+			}
+			if g == nil || g.K != TVar {
+				continue
+			}
+			// the actual arguments must not depend on the ghost variable themselves
+			dep := recv != nil && termMentions(recv, g)
+			for _, a := range args {
+				if a != nil && termMentions(a, g) {
+					dep = true
+				}
+			}
+			if dep {
+				continue
+			}
+			bv := BoundVar(sanitizeSym(x.freshName(gv)), g.S)
+			s.assume(Forall([]*Term{bv}, Substitute(t, map[*Term]*Term{g: bv})))
+		}
 	}
 	if ct.Trusted != "" {
 		x.eng.usedTrusted[ct.Key] = ct.Trusted
@@ -1524,10 +1553,19 @@ func (x *Exec) callSpecHelper(s *State, fn *types.Func, call *ast.CallExpr) []*T
 	case "callCount":
 		// number of recorded calls whose name ends in the pattern; unknown when the log has an unknown prefix
 		hasGap := s.callsOpen
-		for _, c := range s.calls {
-			if c.name == "?" {
-				hasGap = true
+		if tv, ok := x.tv(call.Args[0]); ok && tv.Value != nil && tv.Value.Kind() == constant.String {
+			name := constant.StringVal(tv.Value)
+			if i := strings.Index(name, "|"); i >= 0 {
+				name = name[:i]
 			}
+			for i, c := range s.calls {
+				// only gaps that may hide a call matching the pattern make the count unknown
+				if c.name == "?" && gapMayHide(&s.calls[i], name) {
+					hasGap = true
+				}
+			}
+		} else {
+			hasGap = true
 		}
 		if tv, ok := x.tv(call.Args[0]); ok && tv.Value != nil && tv.Value.Kind() == constant.String && !hasGap {
 			n := 0
@@ -1568,6 +1606,33 @@ func (x *Exec) callSpecHelper(s *State, fn *types.Func, call *ast.CallExpr) []*T
 		}
 		x.note("ghost call log: %s not resolvable here", exprString(call))
 		return []*Term{x.freshVar("callRes", want)}
+	case "callArgIs":
+		// callArgIs(pat, k, i, v): the i-th argument of the k-th matching call is v (any type: slices compare as slice
+		// headers, interfaces as (type, value) pairs, pointers as references)
+		tv, ok := x.tv(call.Args[0])
+		kv, ok2 := x.tv(call.Args[1])
+		iv, ok3 := x.tv(call.Args[2])
+		want := x.eval(s, call.Args[3])
+		if ok && ok2 && ok3 && tv.Value != nil && kv.Value != nil && iv.Value != nil && tv.Value.Kind() == constant.String {
+			k, _ := constant.Int64Val(kv.Value)
+			i, _ := constant.Int64Val(iv.Value)
+			if c := x.findCall(s, constant.StringVal(tv.Value), int(k)); c != nil && int(i) < len(c.args) && i >= 0 && c.args[i] != nil {
+				a := c.args[i]
+				if a.S == want.S {
+					return []*Term{Eq(a, want)}
+				}
+				if a.S == SInt && want.S == SReal {
+					return []*Term{Eq(ToReal(a), want)}
+				}
+				if a.S == SReal && want.S == SInt {
+					return []*Term{Eq(a, ToReal(want))}
+				}
+				x.note("ghost call log: %s compares a %s argument with a %s value", exprString(call), a.S.Mangle(), want.S.Mangle())
+				return []*Term{x.freshVar("callArgIs", SBool)}
+			}
+		}
+		x.note("ghost call log: %s not resolvable here (unknown prefix, merge, or no such call)", exprString(call))
+		return []*Term{x.freshVar("callArgIs", SBool)}
 	case "callArgF", "callArgI", "callArgB":
 		want := map[string]*Sort{"callArgF": SReal, "callArgI": SInt, "callArgB": SBool}[fn.Name()]
 		tv, ok := x.tv(call.Args[0])
@@ -1889,16 +1954,8 @@ func (x *Exec) findCall(s *State, pat string, k int) *callRec {
 		if c.name == "?" {
 			// a gap caused by a modular callee hides calls to the logged module function "@Key" only if that
 			// callee may (transitively) call it
-			if strings.HasPrefix(name, "@") && c.hide != nil && !c.hide.unknown {
-				may := false
-				for f := range c.hide.callees {
-					if strings.HasSuffix("@"+f.Key, name) {
-						may = true
-					}
-				}
-				if !may {
-					continue
-				}
+			if !gapMayHide(&s.calls[i], name) {
+				continue
 			}
 			if firstGap < 0 {
 				firstGap = i
@@ -2004,4 +2061,26 @@ func (x *Exec) callStatic(s *State, fi *FuncInfo, recv *Term, call *ast.CallExpr
 	}
 	x.havocAllHeap(s)
 	return x.havocResults(s, call)
+}
+
+// termMentions: does t contain the term v?
+func termMentions(t, v *Term) bool {
+	seen := map[*Term]bool{}
+	var rec func(t *Term) bool
+	rec = func(t *Term) bool {
+		if t == v {
+			return true
+		}
+		if seen[t] {
+			return false
+		}
+		seen[t] = true
+		for _, a := range t.Args {
+			if rec(a) {
+				return true
+			}
+		}
+		return false
+	}
+	return rec(t)
 }
